@@ -90,6 +90,9 @@ Proof.
   cbn zeta. rewrite E. reflexivity.
 Qed.
 
+Lemma count_step_memo o : o_counts (fst (bk_count_step o)) = Some (snd (bk_count_step o)).
+Proof. unfold bk_count_step. destruct (o_counts o) eqn:E; cbn; [exact E | reflexivity]. Qed.
+
 Lemma get_count_code o :
   exists st, imp_get_count o = Ret [] st (snd (bk_count_step o)) /\ imp_get_count_self st = fst (bk_count_step o).
 Proof.
@@ -97,18 +100,65 @@ Proof.
   destruct o as [size chunks [cs|]]; cbn; eexists; split; reflexivity.
 Qed.
 
+(* ------------------------------------------------------------------ stepping through generated bodies *)
+Lemma andthen_call {St Y R V} (f : St -> cres V) (bind : V -> St -> St) (k : M St Y R) s :
+  andthen (call_ f bind) k s = match f s with CFuel => Fuel | CRaised => Raised | COk v => k (bind v s) end.
+Proof. unfold andthen, call_. destruct (f s); try reflexivity. apply prepend_nil. Qed.
+Lemma ret_eval {St Y R} (f : St -> R) (s : St) : ret f s = (Ret [] s (f s) : res St Y R).
+Proof. reflexivity. Qed.
+Lemma ite_skip_eval {St Y R} c (a : M St Y R) s : ite c a skip s = if c s then a s else Fall [] s.
+Proof. reflexivity. Qed.
+
+Local Arguments andthen : simpl never.
+Local Arguments assign : simpl never.
+Local Arguments ite : simpl never.
+Local Arguments ret : simpl never.
+Local Arguments skip : simpl never.
+Local Arguments check : simpl never.
+Local Arguments call_ : simpl never.
+Local Arguments for_ : simpl never.
+Local Arguments try_ : simpl never.
+Local Arguments value_of : simpl never.
+Local Arguments ib_sum_hist : simpl never.
+Local Arguments ib_count_hist : simpl never.
+Local Arguments ib_missing_hist : simpl never.
+Local Arguments ib_where_missing : simpl never.
+Local Arguments ib_where_zero : simpl never.
+Local Arguments ib_invalid_mask : simpl never.
+Local Arguments ib_weights : simpl never.
+Local Arguments ib_same_chunks : simpl never.
+Local Arguments ib_rechunk : simpl never.
+Local Arguments ib_statistic : simpl never.
+Local Arguments ib_abs_max : simpl never.
+Local Arguments ib_mark_fill : simpl never.
+Local Arguments ib_valid_flags : simpl never.
+Local Arguments ib_cat_flags : simpl never.
+Local Arguments ib_avg_div : simpl never.
+Local Arguments ib_avg_fill : simpl never.
+Local Arguments ib_frac_div : simpl never.
+Local Arguments ib_frac_fill : simpl never.
+Local Arguments bk_rechunk : simpl never.
+Local Arguments bk_cells : simpl never.
+Local Arguments dat_eqb : simpl never.
+Local Arguments dat_isnan : simpl never.
+Local Arguments d_set : simpl never.
+Local Arguments zlen : simpl never.
+Ltac istep := first [rewrite andthen_assign | rewrite andthen_skip | rewrite andthen_call | rewrite andthen_check]; cbv beta; cbn.
+
 (* ------------------------------------------------------------------ _mask_bins_with_nan_if_not_skipna *)
 Lemma mask_bins_code o skipna data size stat fill :
   exists st, imp_mask_bins o skipna data size stat fill
              = Ret [] st (if skipna then stat
                           else ib_where_missing (ib_missing_hist size (o_chunks o) (ib_invalid_mask fill data)) fill stat).
 Proof.
-  unfold imp_mask_bins, andthen, assign, ite, ret, skip, prepend. destruct skipna; cbn; eexists; reflexivity.
+  unfold imp_mask_bins. rewrite andthen_ite. cbn. destruct skipna; cbn.
+  - rewrite andthen_skip, ret_eval. eexists; reflexivity.
+  - rewrite seq_assoc. repeat istep. rewrite seq_assoc. repeat istep. rewrite ret_eval. cbn. eexists; reflexivity.
 Qed.
 
 (* ------------------------------------------------------------------ get_sum *)
-Lemma get_sum_value size (idxs : list (list Z)) data fill skipna ebv :
-  (fun sums1 => if negb (dat_eqb ebv (Some 0)) then ib_where_zero ebv sums1 else sums1)
+Lemma get_sum_value size (idxs : list (list Z)) data fill (skipna : bool) ebv :
+  (fun sums1 : list dat => if negb (dat_eqb ebv (Some 0)) then ib_where_zero ebv sums1 else sums1)
     (if skipna then ib_sum_hist size idxs (ib_weights (ib_invalid_mask fill data) data)
      else ib_where_missing (ib_missing_hist size idxs (ib_invalid_mask fill data)) fill
                            (ib_sum_hist size idxs (ib_weights (ib_invalid_mask fill data) data)))
@@ -127,29 +177,200 @@ Lemma get_sum_code o data fill skipna ebv :
 Proof.
   pose proof (get_sum_value (o_size o) (o_chunks (bk_rechunk (ib_lens data) o)) data fill skipna ebv) as V.
   rewrite rechunk_chunks in V. rewrite <- V. clear V.
-  unfold imp_get_sum, andthen, assign, ite, ret, skip, prepend, call_, value_of.
-  cbn [imp_get_sum_self imp_get_sum_data imp_get_sum_fill_value imp_get_sum_skipna imp_get_sum_empty_bucket_value
-       imp_get_sum_invalid_mask imp_get_sum_weights imp_get_sum_out_size imp_get_sum_sums imp_get_sum__ imp_get_sum__ret
-       imp_get_sum_set_self imp_get_sum_set_data imp_get_sum_set_invalid_mask imp_get_sum_set_weights imp_get_sum_set_out_size
-       imp_get_sum_set_sums imp_get_sum_set__ imp_get_sum_set__ret fst snd app o_size o_chunks o_counts].
-  destruct (ib_same_chunks (ib_weights (ib_invalid_mask fill data) data) (o_chunks o)) eqn:Es; cbn [negb].
-  - (* chunks already match: self untouched, which is the re-chunked object *)
-    apply list_eqb_nat_eq in Es. rewrite lens_weights in Es.
-    rewrite (rechunk_same o data Es).
-    cbn [imp_get_sum_self imp_get_sum_data imp_get_sum_fill_value imp_get_sum_skipna imp_get_sum_empty_bucket_value
-         imp_get_sum_invalid_mask imp_get_sum_weights imp_get_sum_out_size imp_get_sum_sums imp_get_sum__ imp_get_sum__ret
-         imp_get_sum_set_self imp_get_sum_set_data imp_get_sum_set_invalid_mask imp_get_sum_set_weights imp_get_sum_set_out_size
-         imp_get_sum_set_sums imp_get_sum_set__ imp_get_sum_set__ret fst snd app o_size o_chunks o_counts].
-    destruct (mask_bins_code o skipna data (o_size o) (ib_sum_hist (o_size o) (o_chunks o) (ib_weights (ib_invalid_mask fill data) data)) fill) as [st1 E1].
-    rewrite E1. cbn [app]. destruct skipna; destruct (dat_eqb ebv (Some 0)); cbn; eexists; split; reflexivity.
-  - unfold ib_rechunk. rewrite lens_weights. fold (bk_rechunk (ib_lens data) o).
-    cbn [imp_get_sum_self imp_get_sum_data imp_get_sum_fill_value imp_get_sum_skipna imp_get_sum_empty_bucket_value
-         imp_get_sum_invalid_mask imp_get_sum_weights imp_get_sum_out_size imp_get_sum_sums imp_get_sum__ imp_get_sum__ret
-         imp_get_sum_set_self imp_get_sum_set_data imp_get_sum_set_invalid_mask imp_get_sum_set_weights imp_get_sum_set_out_size
-         imp_get_sum_set_sums imp_get_sum_set__ imp_get_sum_set__ret fst snd app o_size o_chunks o_counts].
-    set (o' := bk_rechunk (ib_lens data) o).
-    change (mk_obj (o_size o) (bk_split_chunks (ib_lens data) (concat (o_chunks o))) (o_counts o)) with o'.
-    destruct (mask_bins_code o' skipna data (o_size o) (ib_sum_hist (o_size o) (o_chunks o') (ib_weights (ib_invalid_mask fill data) data)) fill) as [st1 E1].
-    change (o_size o') with (o_size o). rewrite E1. cbn [app].
-    destruct skipna; destruct (dat_eqb ebv (Some 0)); cbn; eexists; split; reflexivity.
+  unfold imp_get_sum. repeat istep. rewrite andthen_ite. cbn.
+  assert (Eo : (if negb (ib_same_chunks (ib_weights (ib_invalid_mask fill data) data) (o_chunks o))
+                then mk_obj (o_size o) (ib_rechunk (o_chunks o) (ib_weights (ib_invalid_mask fill data) data)) (o_counts o) else o)
+               = bk_rechunk (ib_lens data) o).
+  { destruct (ib_same_chunks _ _) eqn:Es; cbn [negb].
+    - apply list_eqb_nat_eq in Es. rewrite lens_weights in Es. symmetry. apply (rechunk_same o data Es).
+    - unfold ib_rechunk. rewrite lens_weights. reflexivity. }
+  set (w := ib_weights (ib_invalid_mask fill data) data) in *.
+  set (o' := bk_rechunk (ib_lens data) o) in *.
+  assert (Tail : forall st0 : imp_get_sum_st,
+            imp_get_sum_self st0 = o' -> imp_get_sum_data st0 = data -> imp_get_sum_fill_value st0 = fill ->
+            imp_get_sum_skipna st0 = skipna -> imp_get_sum_empty_bucket_value st0 = ebv -> imp_get_sum_weights st0 = w ->
+            exists st, ((andthen (assign (fun s => (imp_get_sum_set_out_size (o_size (imp_get_sum_self s)) s)))
+ (andthen (assign (fun s => (fun x_ s => (imp_get_sum_set__ (snd x_) (imp_get_sum_set_sums (fst x_) s))) (ib_sum_hist (imp_get_sum_out_size s) (o_chunks (imp_get_sum_self s)) (imp_get_sum_weights s), tt) s))
+ (andthen (call_ (fun s => value_of (imp_mask_bins (imp_get_sum_self s) (imp_get_sum_skipna s) (imp_get_sum_data s) (imp_get_sum_out_size s) (imp_get_sum_sums s) (imp_get_sum_fill_value s))) (fun x_ s => (imp_get_sum_set_sums x_ s)))
+ (andthen (ite (fun s => (negb (dat_eqb (imp_get_sum_empty_bucket_value s) (Some 0))))
+ (assign (fun s => (imp_get_sum_set_sums (ib_where_zero (imp_get_sum_empty_bucket_value s) (imp_get_sum_sums s)) s)))
+ skip)
+ (ret (fun s => (imp_get_sum_sums s))))))) : M imp_get_sum_st Empty_set (list dat)) st0
+            = Ret [] st ((fun sums1 : list dat => if negb (dat_eqb ebv (Some 0)) then ib_where_zero ebv sums1 else sums1)
+                          (if skipna then ib_sum_hist (o_size o) (o_chunks o') w
+                           else ib_where_missing (ib_missing_hist (o_size o) (o_chunks o') (ib_invalid_mask fill data)) fill
+                                                 (ib_sum_hist (o_size o) (o_chunks o') w)))
+            /\ imp_get_sum_self st = o').
+  { intros st0 H1 H2 H3 H4 H5 H6. destruct st0 as [s0 d0 f0 k0 e0 m0 w0 z0 u0 t0 r0]. cbn in H1, H2, H3, H4, H5, H6. subst s0 d0 f0 k0 e0 w0.
+    repeat istep.
+    destruct (mask_bins_code o' skipna data (o_size o') (ib_sum_hist (o_size o') (o_chunks o') w) fill) as [st1 E1].
+    rewrite E1. unfold value_of. rewrite andthen_ite. cbn.
+    destruct (negb (dat_eqb ebv (Some 0))); repeat istep; rewrite ?andthen_skip, ret_eval; cbn;
+      eexists; (split; [reflexivity|]); reflexivity. }
+  destruct (negb (ib_same_chunks w (o_chunks o))).
+  - rewrite andthen_assign. apply Tail; cbn; auto.
+  - rewrite andthen_skip. apply Tail; cbn; auto.
 Qed.
+
+(* ------------------------------------------------------------------ get_average *)
+Lemma hist_some size idxs zs k :
+  bk_hist oadd (Some 0) size (combine idxs (map Some zs)) k = Some (bk_hist Z.add 0 size (combine idxs zs) k).
+Proof.
+  rewrite (hist_at oadd (Some 0) oadd_assoc oadd_0_l oadd_0_r), (hist_at Z.add 0) by (intros; lia).
+  rewrite vsum_Z, <- vsum_some. f_equal.
+  revert zs. induction idxs as [|i idxs IH]; intros [|z zs]; cbn [map combine filter]; try reflexivity.
+  unfold bk_sel in *. cbn [fst]. destruct (bk_bin size i) as [b|]; [destruct (k =? b)|]; cbn [map snd]; rewrite IH; reflexivity.
+Qed.
+
+Lemma weights_all_some zs : bk_weights None (map Some zs) = map Some zs.
+Proof. unfold bk_weights. rewrite map_map. apply map_ext. intros z. reflexivity. Qed.
+
+Lemma get_sum_some size idxs zs k : bk_get_sum size idxs (map Some zs) None true (Some 0) k = Some (bk_hist Z.add 0 size (combine idxs zs) k).
+Proof. unfold bk_get_sum. cbn [dat_eqb Z.eqb]. rewrite weights_all_some. apply hist_some. Qed.
+
+Lemma lens_mark_fill fill data : ib_lens (ib_mark_fill fill data) = ib_lens data.
+Proof. unfold ib_lens, ib_mark_fill. rewrite map_map. apply map_ext. intros c. apply map_length. Qed.
+Lemma lens_valid_flags data : ib_lens (ib_valid_flags data) = ib_lens data.
+Proof. unfold ib_lens, ib_valid_flags. rewrite map_map. apply map_ext. intros c. apply map_length. Qed.
+Lemma lens_cat_flags cat data : ib_lens (ib_cat_flags cat data) = ib_lens data.
+Proof. unfold ib_lens, ib_cat_flags. rewrite map_map. apply map_ext. intros c. apply map_length. Qed.
+
+Lemma avg_data_flat fill data :
+  concat (if negb (dat_isnan fill) then ib_mark_fill fill data else data) = bk_avg_data fill (concat data).
+Proof.
+  unfold bk_avg_data, ib_mark_fill. destruct (dat_isnan fill); cbn [negb]; [reflexivity|]. symmetry. apply concat_map.
+Qed.
+Lemma valid_flags_flat data : concat (ib_valid_flags data) = map Some (bk_valid_flags (concat data)).
+Proof. unfold ib_valid_flags, bk_valid_flags. rewrite <- concat_map, map_map. reflexivity. Qed.
+Lemma cat_flags_flat cat data : concat (ib_cat_flags cat data) = map Some (bk_cat_flags cat (concat data)).
+Proof. unfold ib_cat_flags, bk_cat_flags. rewrite <- concat_map, map_map. reflexivity. Qed.
+
+Section ImpF.
+  Context {T : Type} (OP : ops T).
+
+  Lemma avg_value size idxs d1 fill skipna :
+    ib_avg_fill OP fill (ib_avg_div OP (bk_cells size (bk_get_sum size idxs d1 None skipna (Some 0)))
+                                       (bk_cells size (bk_get_sum size idxs (map Some (bk_valid_flags d1)) None true (Some 0))))
+    = bk_cells size (fun k =>
+        let sums := bk_get_sum size idxs d1 None skipna (Some 0) in
+        let counts := bk_hist Z.add 0 size (combine idxs (bk_valid_flags d1)) in
+        match (if counts k =? 0 then None
+               else match sums k with Some s => Some (div OP (ofZ OP s) (ofZ OP (counts k))) | None => None end)
+        with Some v => Some v | None => bk_fill_T OP fill end).
+  Proof.
+    unfold ib_avg_fill, ib_avg_div. rewrite combine_cells, !map_cells. apply cells_ext. intros k. cbn [fst snd].
+    rewrite get_sum_some. reflexivity.
+  Qed.
+
+  Lemma get_average_code o data fill skipna :
+    exists st, imp_get_average OP o data fill skipna
+               = Ret [] st (bk_cells (o_size o) (bk_get_average OP (o_size o) (concat (o_chunks o)) (concat data) fill skipna))
+               /\ imp_get_average_self st = bk_rechunk (ib_lens data) o.
+  Proof.
+    unfold imp_get_average. rewrite andthen_ite. cbn.
+    set (d1 := if negb (dat_isnan fill) then ib_mark_fill fill data else data).
+    assert (L1 : ib_lens d1 = ib_lens data) by (unfold d1; destruct (negb (dat_isnan fill)); [apply lens_mark_fill | reflexivity]).
+    assert (F1 : concat d1 = bk_avg_data fill (concat data)) by apply avg_data_flat.
+    assert (Tail : forall st0 : imp_get_average_st,
+              imp_get_average_self st0 = o -> imp_get_average_data st0 = d1 -> imp_get_average_fill_value st0 = fill ->
+              imp_get_average_skipna st0 = skipna ->
+              exists st, ((andthen (call_ (fun s => match (imp_get_sum (imp_get_average_self s) (imp_get_average_data s) None (imp_get_average_skipna s) (Some 0)) with Ret _ s_ v_ => COk (v_, imp_get_sum_self s_) | Fuel => CFuel | _ => CRaised end) (fun x_ s => (fun x_ s => (imp_get_average_set_sums x_ s)) (fst x_) (imp_get_average_set_self (snd x_) s)))
+ (andthen (call_ (fun s => match (imp_get_sum (imp_get_average_self s) (ib_valid_flags (imp_get_average_data s)) None true (Some 0)) with Ret _ s_ v_ => COk (v_, imp_get_sum_self s_) | Fuel => CFuel | _ => CRaised end) (fun x_ s => (fun x_ s => (imp_get_average_set_counts x_ s)) (fst x_) (imp_get_average_set_self (snd x_) s)))
+ (andthen (assign (fun s => (imp_get_average_set_average (ib_avg_div OP (imp_get_average_sums s) (imp_get_average_counts s)) s)))
+ (andthen (assign (fun s => (imp_get_average_set_average (ib_avg_fill OP (imp_get_average_fill_value s) (imp_get_average_average s)) s)))
+ (ret (fun s => (imp_get_average_average s))))))) : M imp_get_average_st Empty_set (list (option T))) st0
+              = Ret [] st (bk_cells (o_size o) (bk_get_average OP (o_size o) (concat (o_chunks o)) (concat data) fill skipna))
+              /\ imp_get_average_self st = bk_rechunk (ib_lens data) o).
+    { intros st0 H1 H2 H3 H4. destruct st0 as [s0 d0 f0 k0 a0 b0 c0 r0]. cbn in H1, H2, H3, H4. subst s0 d0 f0 k0.
+      rewrite andthen_call. cbn.
+      destruct (get_sum_code o d1 None skipna (Some 0)) as (st1 & E1 & S1). rewrite E1. cbn.
+      rewrite andthen_call. cbn. rewrite S1.
+      destruct (get_sum_code (bk_rechunk (ib_lens d1) o) (ib_valid_flags d1) None true (Some 0)) as (st2 & E2 & S2). rewrite E2. cbn.
+      repeat istep. rewrite ret_eval. cbn. eexists. split.
+      - f_equal. rewrite rechunk_chunks. change (o_size (bk_rechunk (ib_lens d1) o)) with (o_size o).
+        rewrite valid_flags_flat, F1. rewrite avg_value. reflexivity.
+      - rewrite S2, lens_valid_flags, L1. apply rechunk_rechunk. }
+    destruct (negb (dat_isnan fill)) eqn:En.
+    - rewrite andthen_assign. apply Tail; cbn; auto.
+    - rewrite andthen_skip. apply Tail; cbn; auto.
+  Qed.
+  (* ---------------------------------------------------------------- get_fractions *)
+  Lemma andthen_try_assign {St Y R} (f : St -> St) (h k : M St Y R) s : andthen (try_ (assign f) h) k s = k (f s).
+  Proof. unfold andthen, try_, assign. apply prepend_nil. Qed.
+
+  (* the per-category result, computed with the memoised counts cs *)
+  Definition frac_memo (size : Z) (idxs : list Z) (data : list dat) (cat : Z) (fill : dat) (cs : list Z) : list (option T) :=
+    map (fun kc : Z * Z => bk_frac_cell OP (bk_hist Z.add 0 size (combine idxs (bk_cat_flags cat data)) (fst kc)) (snd kc) fill)
+        (combine (zrange 0 (Z.to_nat size)) cs).
+
+  Lemma frac_zip {A} (l : list A) (f : A -> dat) (cs : list Z) (g : A -> Z) fill :
+    (forall x, f x = Some (g x)) ->
+    ib_frac_fill OP cs fill (ib_frac_div OP (map f l) cs)
+    = map (fun kc : A * Z => bk_frac_cell OP (g (fst kc)) (snd kc) fill) (combine l cs).
+  Proof.
+    intros Hf. unfold ib_frac_fill, ib_frac_div. revert cs. induction l as [|x l IH]; intros [|c cs]; cbn [map combine]; try reflexivity.
+    rewrite IH. f_equal. cbn [fst snd]. rewrite Hf. unfold bk_frac_cell. destruct (c =? 0); reflexivity.
+  Qed.
+
+  Lemma frac_value size idxs data cat fill cs :
+    ib_frac_fill OP cs fill (ib_frac_div OP (bk_cells size (bk_get_sum size idxs (map Some (bk_cat_flags cat data)) None true (Some 0))) cs)
+    = frac_memo size idxs data cat fill cs.
+  Proof. unfold bk_cells, frac_memo. apply frac_zip. intros k. apply get_sum_some. Qed.
+
+  Definition frac_results size idxs data fill cs (cats : list Z) (acc : list (Z * list (option T))) :=
+    fold_left (fun d cat => d_set Z.eqb d cat (frac_memo size idxs data cat fill cs)) cats acc.
+
+  Lemma get_fractions_loop size idxs data fill cs lens (body : M imp_get_fractions_st Empty_set (list (Z * list (option T)))) :
+    body = (andthen (assign (fun s => (imp_get_fractions_set_cat_data (ib_cat_flags (imp_get_fractions_cat s) (imp_get_fractions_data s)) s)))
+ (andthen (call_ (fun s => match (imp_get_sum (imp_get_fractions_self s) (imp_get_fractions_cat_data s) None true (Some 0)) with Ret _ s_ v_ => COk (v_, imp_get_sum_self s_) | Fuel => CFuel | _ => CRaised end) (fun x_ s => (fun x_ s => (imp_get_fractions_set_sums x_ s)) (fst x_) (imp_get_fractions_set_self (snd x_) s)))
+ (andthen (assign (fun s => (imp_get_fractions_set_result (ib_frac_div OP (imp_get_fractions_sums s) (imp_get_fractions_counts s)) s)))
+ (andthen (assign (fun s => (imp_get_fractions_set_result (ib_frac_fill OP (imp_get_fractions_counts s) (imp_get_fractions_fill_value s) (imp_get_fractions_result s)) s)))
+ (assign (fun s => (imp_get_fractions_set_results (d_set Z.eqb (imp_get_fractions_results s) (imp_get_fractions_cat s) (imp_get_fractions_result s)) s))))))) ->
+    ib_lens data = lens ->
+    forall cats s,
+      imp_get_fractions_data s = data -> imp_get_fractions_counts s = cs -> imp_get_fractions_fill_value s = fill ->
+      o_size (imp_get_fractions_self s) = size -> concat (o_chunks (imp_get_fractions_self s)) = idxs ->
+      exists s', for_list cats (fun x_ s => (imp_get_fractions_set_cat x_ s)) body s = Fall [] s'
+                 /\ imp_get_fractions_results s' = frac_results size idxs (concat data) fill cs cats (imp_get_fractions_results s)
+                 /\ o_size (imp_get_fractions_self s') = size /\ concat (o_chunks (imp_get_fractions_self s')) = idxs
+                 /\ o_counts (imp_get_fractions_self s') = o_counts (imp_get_fractions_self s).
+  Proof.
+    intros Hb Hl. induction cats as [|cat cats IH]; intros s H1 H2 H3 H4 H5; cbn [for_list frac_results fold_left].
+    - exists s. repeat split; auto.
+    - destruct s as [o0 d0 c0 f0 n0 r0 k0 x0 cd0 sm0 rs0 rt0]. cbn in H1, H2, H3, H4, H5. subst d0 k0 f0.
+      assert (Eb : exists s1, body (imp_get_fractions_set_cat cat (mk_imp_get_fractions_st o0 data c0 fill n0 r0 cs x0 cd0 sm0 rs0 rt0)) = Fall [] s1
+                /\ imp_get_fractions_data s1 = data /\ imp_get_fractions_counts s1 = cs /\ imp_get_fractions_fill_value s1 = fill
+                /\ imp_get_fractions_self s1 = bk_rechunk lens o0
+                /\ imp_get_fractions_results s1 = d_set Z.eqb r0 cat (frac_memo size idxs (concat data) cat fill cs)).
+      { rewrite Hb. repeat istep.
+        destruct (get_sum_code o0 (ib_cat_flags cat data) None true (Some 0)) as (st1 & E1 & S1). rewrite E1. cbn.
+        repeat istep. unfold assign. cbn. eexists. split; [reflexivity|]. cbn. repeat split.
+        - rewrite S1, lens_cat_flags, Hl. reflexivity.
+        - rewrite cat_flags_flat, H4, H5, frac_value. reflexivity. }
+      destruct Eb as (s1 & E1 & D1 & C1 & F1 & S1 & R1). unfold andthen. rewrite E1. rewrite prepend_nil.
+      destruct (IH s1 D1 C1 F1) as (s' & E' & R' & Z' & Q' & K').
+      + rewrite S1. exact H4.
+      + rewrite S1, rechunk_chunks. exact H5.
+      + exists s'. split; [exact E'|]. split; [rewrite R', R1; reflexivity|]. split; [exact Z'|]. split; [exact Q'|].
+        rewrite K', S1. reflexivity.
+  Qed.
+
+  Lemma get_fractions_code o data cats fill :
+    exists st, imp_get_fractions OP o data cats fill
+               = Ret [] st (frac_results (o_size o) (concat (o_chunks o)) (concat data) fill (snd (bk_count_step o)) cats [])
+               /\ o_size (imp_get_fractions_self st) = o_size o
+               /\ concat (o_chunks (imp_get_fractions_self st)) = concat (o_chunks o)
+               /\ o_counts (imp_get_fractions_self st) = Some (snd (bk_count_step o)).
+  Proof.
+    unfold imp_get_fractions. rewrite andthen_try_assign. cbn. repeat istep.
+    destruct (get_count_code o) as (st1 & E1 & S1). rewrite E1. cbn. repeat istep.
+    unfold andthen at 1. unfold for_. cbn.
+    edestruct (get_fractions_loop (o_size o) (concat (o_chunks o)) data fill (snd (bk_count_step o)) (ib_lens data) _ eq_refl eq_refl cats)
+      as (s' & E' & R' & Z' & Q' & K'); [| | | | | rewrite E'].
+    1-3: reflexivity.
+    - cbn. rewrite S1. unfold bk_count_step. destruct (o_counts o); reflexivity.
+    - cbn. rewrite S1. unfold bk_count_step. destruct (o_counts o); reflexivity.
+    - rewrite ret_eval. cbn [prepend app]. cbn in R'. exists s'. split; [rewrite R'; reflexivity|]. split; [exact Z'|]. split; [exact Q'|].
+      rewrite K'. cbn. rewrite S1. apply count_step_memo.
+  Qed.
+End ImpF.
